@@ -7,14 +7,17 @@ namespace BioCantor.Proofs.Query
 open BioCantor BioCantor.Spec BioCantor.Spec.Query BioCantor.Model.Query
 
 /-- modelled domain of parents (the complement are findings: F-C09b sequence-less parent — admitted once
-    `repairedC09b` is flipped —, F-C08a variant members rebuilt on a chunk) -/
+    `repairedC09b` is flipped —, F-C08a variant members rebuilt on a chunk — only while
+    `variantFromDictDropsParent`) -/
 def ParWF (src : Source) : Prop :=
   match src.par with
   | .none => True
   | .noseq => repairedC09b = true      -- as coded: F-C09b (every non-identity query raises NullSequence)
   | .whole seq => src.bounds = none ∧
-      ∀ c ∈ src.children, c.kind ≠ .var ∧ ∀ g ∈ c.gcs, 0 ≤ g.start ∧ g.stop ≤ seq.length
-  | .chunk cs _ => src.bounds = none ∧ 0 ≤ cs ∧ ∀ c ∈ src.children, c.kind ≠ .var
+      ∀ c ∈ src.children, (variantFromDictDropsParent = true → c.kind ≠ .var) ∧
+        ∀ g ∈ c.gcs, 0 ≤ g.start ∧ g.stop ≤ seq.length
+  | .chunk cs _ => src.bounds = none ∧ 0 ≤ cs ∧
+      ∀ c ∈ src.children, (variantFromDictDropsParent = true → c.kind ≠ .var)
 
 /-- What the real constructors establish + the modelled domain. -/
 structure SrcWF (src : Source) : Prop where
@@ -90,10 +93,14 @@ theorem resultBounds_contains (q : PosQ) (s e : Int) (kept : List Child) :
 
 /-! ### members on the new parent -/
 
-theorem liftG_mseq (rp : RPar) (k : Kind) (g : GChild) (h : k ≠ .var ∨ ∀ a b s, rp ≠ .chunk a b s) :
+theorem liftG_mseq (rp : RPar) (k : Kind) (g : GChild)
+    (h : k ≠ .var ∨ (∀ a b s, rp ≠ .chunk a b s) ∨ variantFromDictDropsParent = false) :
     (liftG rp k g).mseq = memberSeq rp g := by
   unfold liftG
-  cases k <;> cases rp <;> simp_all
+  rcases h with h | h | h
+  · cases k <;> cases rp <;> simp_all
+  · cases k <;> cases rp <;> simp_all
+  · rw [h]; cases k <;> cases rp <;> simp
 
 end BioCantor.Proofs.Query
 
@@ -120,22 +127,31 @@ theorem gc_mseq_norm (src : Source) (wf : SrcWF src) (rp : RPar) (hshape : RPSha
   have hpar := wf.par
   unfold ParWF at hpar
   cases rp with
-  | none => rw [liftG_mseq _ _ _ (Or.inr (by intro a b s h; cases h))]; rfl
-  | noseq => rw [liftG_mseq _ _ _ (Or.inr (by intro a b s h; cases h))]; rfl
+  | none => rw [liftG_mseq _ _ _ (Or.inr (Or.inl (by intro a b s h; cases h)))]; rfl
+  | noseq => rw [liftG_mseq _ _ _ (Or.inr (Or.inl (by intro a b s h; cases h)))]; rfl
   | whole seq =>
     simp only [RPShape] at hshape
     rw [hshape] at hpar
-    rw [liftG_mseq _ _ _ (Or.inr (by intro a b s h; cases h))]
+    rw [liftG_mseq _ _ _ (Or.inr (Or.inl (by intro a b s h; cases h)))]
     exact memberSeq_norm_eq_expect _ g hgv ((hpar.2 c hc).2 g hg)
   | chunk a b s =>
     simp only [RPShape] at hshape
-    have hk : c.kind ≠ .var := by
-      cases hp : src.par with
-      | none => rw [hp] at hshape; simp [Par.hasSeq] at hshape
-      | noseq => rw [hp] at hshape; simp [Par.hasSeq] at hshape
-      | whole seq => rw [hp] at hpar; exact (hpar.2 c hc).1
-      | chunk cs seq => rw [hp] at hpar; exact hpar.2.2 c hc
-    rw [liftG_mseq _ _ _ (Or.inl hk)]
+    have hk : c.kind ≠ .var ∨ (∀ a b s, RPar.chunk a b s ≠ .chunk a b s) ∨ variantFromDictDropsParent = false := by
+      cases hv : variantFromDictDropsParent with
+      | false => exact Or.inr (Or.inr rfl)
+      | true =>
+        refine Or.inl ?_
+        cases hp : src.par with
+        | none => rw [hp] at hshape; simp [Par.hasSeq] at hshape
+        | noseq => rw [hp] at hshape; simp [Par.hasSeq] at hshape
+        | whole seq => rw [hp] at hpar; exact (hpar.2 c hc).1 hv
+        | chunk cs seq => rw [hp] at hpar; exact hpar.2.2 c hc hv
+    have hk' : c.kind ≠ .var ∨ (∀ a' b' s', RPar.chunk a b s ≠ .chunk a' b' s') ∨ variantFromDictDropsParent = false := by
+      rcases hk with h | h | h
+      · exact Or.inl h
+      · exact absurd rfl (h a b s)
+      · exact Or.inr (Or.inr h)
+    rw [liftG_mseq _ _ _ hk']
     exact memberSeq_norm_eq_expect _ g hgv hshape.1
 
 /-- members of a well-formed source rebuilt on a parent `rp` the model can produce for it -/
